@@ -507,6 +507,20 @@ class Repo:
             t = set(self.param_types.get((f.qual, expr.id), ()))
             if t:
                 return t
+            # a local bound once to an expression has that expression's type
+            if expr.id not in f.params:
+                from .paths import local_aliases
+                al = local_aliases(f)
+                if expr.id in al and not (isinstance(al[expr.id], ast.Name) and al[expr.id].id == expr.id):
+                    depth = getattr(self, '_et_depth', 0)
+                    if depth < 6:
+                        self._et_depth = depth + 1
+                        try:
+                            t = self.expr_types(al[expr.id], f, local_types)
+                        finally:
+                            self._et_depth = depth
+                        if t:
+                            return t
             h = ROLE_HINTS.get(expr.id)
             return {h} if h and h in self.classes else set()
         if isinstance(expr, ast.Attribute):
